@@ -42,8 +42,30 @@ def seed_table():
         rows.append(f"| {sid} | {what} | {'; '.join(res)} | {'<br>'.join(by[:3]) or '-'} |")
     return "\n".join(rows)
 
+def harmless_table():
+    rows = ["| refactoring | functions touched (author's notes) | checks run -> result |", "|---|---|---|"]
+    for d in sorted(glob.glob(f"{V}/harmless/*/")):
+        m = json.load(open(d + "meta.json"))
+        what = m.get("summary", "")
+        res = []
+        for c, r in sorted(m.get("check_results", {}).items()):
+            kinds = []
+            for l in r["lines"]:
+                if "VIOLATION" in l:
+                    kinds.append("VIOLATION")
+                elif "UNDECIDED" in l:
+                    kinds.append("undecided")
+                elif "CHECKER-ERROR" in l:
+                    kinds.append("checker-error (unsupported construct, no alarm)")
+                elif "OK property" in l:
+                    kinds.append("OK (quiet)")
+            res.append(f"{c}: exit {r['exit']} {'/'.join(sorted(set(kinds)))}")
+        rows.append(f"| {os.path.basename(d.rstrip('/'))} | {what} | {'; '.join(res)} |")
+    return "\n".join(rows)
+
+
 s = open(f"{V}/DESIGN.md").read()
-for tag, fn in (("EVIDENCE-TABLE", evid_table), ("SEED-TABLE", seed_table)):
+for tag, fn in (("EVIDENCE-TABLE", evid_table), ("SEED-TABLE", seed_table), ("HARMLESS-TABLE", harmless_table)):
     a, b = f"<!-- {tag}-BEGIN -->", f"<!-- {tag}-END -->"
     if a in s:
         s = s[: s.index(a) + len(a)] + "\n" + fn() + "\n" + s[s.index(b):]
